@@ -342,13 +342,34 @@ func ruleBufferReset(cx *Ctx) []Obligation {
 	}
 	fi := GetFnInfo(fn)
 	recv := ssa.Value(fn.Params[0])
+	// the output buffer is the field the squeeze pops from (x.F = x.F[:n] in GetChallenge); its name is not assumed
+	outField := "outputBuffer"
+	if gc := cx.P.Func("challenger", "(*Chip).GetChallenge"); gc != nil {
+		for _, b := range gc.Blocks {
+			for _, ins := range b.Instrs {
+				st, ok := ins.(*ssa.Store)
+				if !ok {
+					continue
+				}
+				fa, ok := st.Addr.(*ssa.FieldAddr)
+				if !ok || fa.X != ssa.Value(gc.Params[0]) {
+					continue
+				}
+				if sl, ok := st.Val.(*ssa.Slice); ok && sl.High != nil {
+					if base, ok := fieldLoad(sl.X, fieldName(fa.X.Type(), fa.Field)); ok && base == ssa.Value(gc.Params[0]) {
+						outField = fieldName(fa.X.Type(), fa.Field)
+					}
+				}
+			}
+		}
+	}
 	for _, b := range fn.Blocks {
 		for _, ins := range b.Instrs {
 			st, ok := ins.(*ssa.Store)
 			if !ok {
 				continue
 			}
-			base, ok := fieldAddrOf(st.Addr, "outputBuffer")
+			base, ok := fieldAddrOf(st.Addr, outField)
 			if !ok || base != recv {
 				continue
 			}
@@ -376,7 +397,7 @@ func ruleBufferReset(cx *Ctx) []Obligation {
 				}
 			}
 			if !empty {
-				return []Obligation{bad(key, desc, "the value stored to outputBuffer is not an empty slice: "+st.Val.String(), site)}
+				return []Obligation{bad(key, desc, "the value stored to the output buffer ("+outField+") is not an empty slice: "+st.Val.String(), site)}
 			}
 			if !fi.MustBlock(b) {
 				return []Obligation{bad(key, desc, "the reset is conditional", site)}
@@ -384,5 +405,5 @@ func ruleBufferReset(cx *Ctx) []Obligation {
 			return []Obligation{good(key, desc, site)}
 		}
 	}
-	return []Obligation{bad(key, desc, "ObserveElement does not store to outputBuffer")}
+	return []Obligation{bad(key, desc, "ObserveElement does not store to the output buffer ("+outField+")")}
 }
